@@ -42,45 +42,41 @@ end Schedule
 
 namespace Docstring
 
-/-- a rendering run: any sequence of entry-point calls on any objects.  Every call returns — for every
-behaviour of the parsers, `to_stan`, `to_node`, the summary walk and the toc builder — provided
-`extract_fields` is only called on objects that have a docstring (its documented precondition; the
-docstring of an object is never changed by a call, so the precondition is stated on the initial state). -/
-theorem c01_render_run_total (env : Env) : ∀ (ops : List (Op × Obj)) (st : St),
-    (∀ p ∈ ops, p.1 = .extract → (st.objs p.2).docstring ≠ none) →
-    ∀ o ∈ (run env st ops).1, o.isOk = true
-  | [], st, _ => by simp [run]
-  | (op, obj) :: rest, st, hx => by
-    intro o ho
-    simp only [run, List.mem_cons] at ho
-    rcases ho with rfl | ho
-    · exact total env st op obj (fun h => hx (op, obj) (by simp) h)
-    · refine c01_render_run_total env rest (step env st op obj).2 ?_ o ho
-      intro p hp hpe
-      rw [(frame_step env st op obj).docstring p.2]
-      exact hx p (List.mem_cons_of_mem _ hp) hpe
+/-- a rendering run: any sequence of calls of the eleven wrapped entry points (`ensure_parsed_docstring`,
+`format_docstring`, `format_summary`, `format_toc`, `extract_fields`, `type2stan`, `format_constant_value`,
+`pages.format_signature`, `format_class_signature`, `format_decorators`, `search.format_docstring`) on any
+objects.  Every call returns — for every behaviour of the parsers, `to_stan`, `to_node`, the colourisers, the
+summary walk and the toc builder — provided `extract_fields` is only called on objects that have a docstring
+(its documented precondition; the docstring of an object is never changed by a call, so the precondition is
+stated on the initial state). -/
+theorem c01_render_run_total (env : Env) (ops : List (XOp × Obj)) (st : St)
+    (hx : ∀ p ∈ ops, p.1 = .core .extract → (st.objs p.2).docstring ≠ none) :
+    ∀ o ∈ (xrun env st ops).1, o.isOk = true :=
+  xrun_total env ops st hx
 
 /-- what has been recorded in `system.parse_errors` is never lost during a run -/
-theorem c01_errors_kept (env : Env) : ∀ (ops : List (Op × Obj)) (st : St),
-    ∀ p ∈ st.errors, p ∈ (run env st ops).2.errors
-  | [], _, p, hp => by simpa [run] using hp
+theorem c01_errors_kept (env : Env) : ∀ (ops : List (XOp × Obj)) (st : St),
+    ∀ p ∈ st.errors, p ∈ (xrun env st ops).2.errors
+  | [], _, p, hp => by simpa [xrun] using hp
   | (op, obj) :: rest, st, p, hp => by
-    simp only [run]
-    exact c01_errors_kept env rest _ p ((frame_step env st op obj).errors_mono p hp)
+    simp only [xrun]
+    exact c01_errors_kept env rest _ p ((loose_xstep env st op obj).errors_mono p hp)
 
 /-- a run in which some docstring failure was recorded ends with exit status 2 (or 3 under -W), never 0 -/
-theorem c01_failure_sets_exit_status (env : Env) (ops : List (Op × Obj)) (st : St) (w : Bool) (v : Nat)
+theorem c01_failure_sets_exit_status (env : Env) (ops : List (XOp × Obj)) (st : St) (w : Bool) (v : Nat)
     (p : Sec × Obj) (hp : p ∈ st.errors) :
-    Schedule.exitStatus w v (run env st ops).2.errors.length ∈ [2, 3] := by
+    Schedule.exitStatus w v (xrun env st ops).2.errors.length ∈ [2, 3] := by
   have hmem := c01_errors_kept env ops st p hp
-  have hpos : 0 < (run env st ops).2.errors.length := List.length_pos_of_mem hmem
+  have hpos : 0 < (xrun env st ops).2.errors.length := List.length_pos_of_mem hmem
   unfold Schedule.exitStatus
   by_cases h1 : (w && decide (v > 0)) = true
   · simp [h1]
   · simp [h1, hpos]
 
-/-- non-vacuity: a three-call run on the witness environment of C08 (a `to_node` that raises) -/
-example : ∀ o ∈ (run envCx stCx [(.doc, 0), (.toc, 0), (.summary, 0)]).1, o.isOk = true :=
+/-- non-vacuity: a run over core and extended entry points on the witness environment of C08 (a `to_node`
+that raises) -/
+example : ∀ o ∈ (xrun envCx stCx [(.core .doc, 0), (.core .toc, 0), (.core .summary, 0), (.typ, 0), (.search, 0)]).1,
+    o.isOk = true :=
   c01_render_run_total envCx _ stCx (by simp)
 
 end Docstring
